@@ -180,6 +180,10 @@ def deriv_check(case):
     e = Expr(sym, real=True, target_idx=[])
     if len(e.terms) != 1 or e.terms[0].target:
         return True, "not a closed single term"
+    if any(abs(int(o.exponent)) > 3 for o in e.terms[0].objects):
+        # equal factors merge into powers; the symmetry analysis of the
+        # library grows factorially with the number of equal indices
+        return True, "power > 3: outside the bound (cost)"
     braket = {"V": 1}
     if case["tkind"] == "anti" and case.get("bk"):
         braket["T"] = braket["dT"] = case["bk"]
@@ -304,7 +308,7 @@ def _recontract(case, e, res, tg, asg, model, occ):
 CHECKS = {
     "derivative.first_order_change": {
         "function": "adcgen.derivative:derivative", "cases": gen_cases, "check": deriv_check,
-        "bound": "closed single terms with 1-2 occurrences (exponents 1-2) of an antisymmetric (rank 2/4) or non symmetric (rank 1-3) tensor T and closing remainder tensors; exact dual number differentiation, 2 occ + 2 virt spin orbitals"},
+        "bound": "closed single terms with 1-2 occurrences (exponents 1-2, merged powers <= 3) of an antisymmetric (rank 2/4) or non symmetric (rank 1-3) tensor T and closing remainder tensors; exact dual number differentiation, 2 occ + 2 virt spin orbitals"},
     "remove_tensor.recontraction": {
         "function": "adcgen.simplify:remove_tensor.remove", "cases": gen_cases, "check": remove_check,
         "bound": "the same terms with a single occurrence of T (no bra-ket symmetry): blocks re-contracted over canonical index tuples reproduce the expression"},
